@@ -131,6 +131,7 @@ class TooBig(Exception):
 
 
 STEP_LIMIT = 30000
+MODEL_STEP_LIMIT = 4000     # longer renders are judged by the oracle only (structure is still compared)
 
 
 class Ref(RR.Ref):
@@ -148,7 +149,7 @@ def expected(bodies, k=-1, opts=None):
     r = Ref(bodies, k, strict_pending=True, buffer_filters=opts.get("buffer_filters") or ())
     x = r.render()
     res = {"ok": "val", "boom": "exc:0", "error": "exc:other"}[x["outcome"]]
-    return {"res": res, "out": x["output"], "cnt": r.cnt}
+    return {"res": res, "out": x["output"], "cnt": r.cnt, "steps": r.steps}
 
 
 def render_site(r, e):
@@ -413,7 +414,9 @@ def oracle_set(ctx, rep, bodies, tag, s_render, s_ident, opts=None, allow=(), ns
                            {"render_unicode": pub[1], "render_context": r["out"]}, allow)
         if sets is not None:
             sets.append((bodies, impl))
-        if pending is not None and (style[0] == "plain" or ctx.rng.random() < 0.5):
+        if e["steps"] > MODEL_STEP_LIMIT:
+            ctx.branch("behaviour-not-sent-to-lean(too-long)")      # the Lean interpreter is slow on long renders
+        elif pending is not None and (style[0] == "plain" or ctx.rng.random() < 0.5):
             pending.append((bodies, -1, {"name": "caller"}, {"style": list(style)}, r))
             total = r["cnt"]
             if style[0] == "plain" and total and crash_points:
@@ -512,6 +515,7 @@ def run_oracles(ctx, sets, pending):
     # rich signatures
     from harness import c05_rich
     c05_rich.run(ctx)
+    coverage_summary(ctx)
 
 
 def structural(ctx, drv, sets):
@@ -543,6 +547,30 @@ def structural(ctx, drv, sets):
         ctx.branch("structural:" + impl.style[0])
         for s in C13.count_shapes(py):
             ctx.branch("shape:" + s)
+
+
+def coverage_summary(ctx):
+    """the distribution of what was generated and run, so that thin coverage is visible in the log"""
+    b = ctx.branches
+
+    def group(prefix, strip=True):
+        items = sorted((k, v) for k, v in b.items() if k.startswith(prefix))
+        return " ".join("%s=%d" % (k[len(prefix):] if strip else k, v) for k, v in items) or "-"
+    depth = {}
+    where = {}
+    for k, v in b.items():
+        if k.startswith("call@depth"):
+            d, w = k[len("call@depth"):].split(":")
+            depth[d] = depth.get(d, 0) + v
+            where[w] = where.get(w, 0) + v
+    ctx.log("coverage: <%%call> nesting depth %s; written in %s" % (
+        " ".join("%s=%d" % i for i in sorted(depth.items())), " ".join("%s=%d" % i for i in sorted(where.items()))))
+    ctx.log("coverage: caller.body() runs per call with content: " + group("bodies-per-call:"))
+    ctx.log("coverage: defs entered (instrumented runs), by flags: " + group("entered-def:"))
+    ctx.log("coverage: ... of these with a caller: " + group("entered-def-with-caller:"))
+    ctx.log("coverage: call forms: " + group("form:"))
+    ctx.log("coverage: surface styles rendered: " + group("style:") + "; written: " + group("written:"))
+    ctx.log("coverage: outcomes " + group("outcome:") + "; skipped " + group("generator:"))
 
 
 def corr_streams(ctx, sets, pending):
